@@ -49,18 +49,27 @@ pkgtests="(root package only)"
 if [ -n "$pk" ]; then pkgtests=$(go test -vet=off -count=1 $pk 2>&1 | tail -4); fi
 echo "--- package tests with patch: $pkgtests"
 cd /verif
-git -C /repo worktree remove --force $wt
-# 3. our check against /repo with the patch
+# 3. our check against the patched tree. The scratch worktree already carries the patch: point the check at it
+# (VERIF_REPO) with its own work directory, so /repo itself is never touched and other runs are not disturbed.
+# SEED_IN_REPO=1 does it the documented way instead: git -C /repo apply; run; git -C /repo checkout -- .
+cd $wt && git checkout -q -- . && git apply $patch && cd /verif
 verdicts=""
 for chk in $id $extra; do
-  git -C /repo apply $patch || { echo "cannot apply to /repo"; exit 2; }
-  out=$(VERIF_OUT=/verif/.work/seedrun ./bin/vcheck run $chk -tier quick 2>&1)
-  code=$?
-  git -C /repo checkout -- .
+  if [ "${SEED_IN_REPO:-0}" = 1 ]; then
+    git -C /repo apply $patch || { echo "cannot apply to /repo"; exit 2; }
+    out=$(VERIF_OUT=/verif/.work/seedrun ./bin/vcheck run $chk -tier quick 2>&1)
+    code=$?
+    git -C /repo checkout -- .
+  else
+    out=$(VERIF_REPO=$wt VERIF_WORK=/verif/.work/seedwork VERIF_OUT=/verif/.work/seedrun ./bin/vcheck run $chk -tier quick 2>&1)
+    code=$?
+  fi
   keys=$(echo "$out" | grep '^  key:' | head -4 | sed 's/^  key: //' | paste -sd';')
+  [ -n "$keys" ] || echo "$out" | tail -3
   echo "--- check $chk: exit $code  $keys"
   verdicts="$verdicts$chk: exit $code [$keys] | "
 done
+git -C /repo worktree remove --force $wt
 git -C /repo status --short | head -3
 python3 - "$id" "$src" "$dst" "$demo" "$without" "$with" "$pkgtests" "$verdicts" <<'PY'
 import json,sys
@@ -70,7 +79,7 @@ except Exception: meta={}
 meta['property']=id.upper()
 meta['demo_location']=demo
 meta['confirmed']={'demo_without_patch':without.strip()[-300:],'demo_with_patch':with_.strip()[-500:],'changed_package_tests_with_patch':pkgtests.strip()[-400:],
-  'ran':'tools/validate_seed.sh %s: scratch worktree at /repo HEAD; demo run without and with the patch; tests of the changed packages with the patch; then `git -C /repo apply patch.diff`, `vcheck run <check> -tier quick`, `git -C /repo checkout -- .`'%id}
+  'ran':'tools/validate_seed.sh %s: scratch worktree at /repo HEAD; demo run without and with the patch; tests of the changed packages with the patch; then the registered quick check run against the patched tree (VERIF_REPO=<scratch worktree with patch.diff applied>; equivalent to `git -C /repo apply patch.diff`, `vcheck run <check> -tier quick`, `git -C /repo checkout -- .`, which SEED_IN_REPO=1 does literally)'%id}
 meta['checks']=verdicts.strip(' |')
 json.dump(meta,open(dst+'/meta.json','w'),indent=1)
 print(json.dumps(meta,indent=1)[:1500])
